@@ -253,19 +253,46 @@ def run(ctx_):
             if nbad:
                 res["failures"].append({"property": prop, "known_class": cls, "idl": text,
                                         "what": "methods of class %s do not round-trip (%d log lines differ or the sanitizer aborts)" % (cls, nbad)})
+    # every stub/skeleton pairing over DATA parameters (the batches above run C stub -> C skeleton through
+    # a copying transport; objects run through all nine pairings under C05): the nine-pairing program
+    # with generated interfaces over primitives of all widths, buffers, arrays, small / 16-byte / 17-byte /
+    # big structs and struct arrays - what every implementation receives and every caller gets back must
+    # be the same lines in all nine pairings (and c -> c is what the batches above compare with the model)
+    import l2data
+    ndata = 2 if tier == "quick" else 30
+    drng = vlib.mkrng(seed, prop + "-data")
+    dmethods = [(l2data.gen_methods(drng, 9), i % 2 == 1) for i in range(ndata)]
+
+    def dd(i):
+        ms, ch = dmethods[i]
+        return i, l2data.build_and_run(ctx_["idlc"], os.path.join(work, "data%d" % i), ms, chain=ch)
+    with ThreadPoolExecutor(max_workers=4) as ex:
+        dres = dict(ex.map(dd, range(ndata)))
+    data_lines = 0
+    for i, r in sorted(dres.items()):
+        ms, ch = dmethods[i]
+        idl = l2data.render_idl(ms, ch)
+        if r.get("stage") != "run" or r.get("rc") != 0:
+            res["failures"].append({"property": prop, "idl": idl, "what": "the nine-pairing data program does not build or aborts (%s): %s" % (r.get("stage"), (r.get("err") or "")[-700:])})
+            continue
+        data_lines += r["out"].count("\nimpl ")
+        for pairing, line, refline in l2data.compare(r["out"])[:6]:
+            res["failures"].append({"property": prop, "idl": idl, "pairing (caller implementation)": pairing, "observed": line[:900], "expected (pairing c c)": refline[:900],
+                                    "what": "pairing %s: values, lengths or status differ from the C stub -> C skeleton pairing" % pairing})
     nv_status, nv_fails = near_valid_probe(ctx_, work, vals)
     res["failures"] += nv_fails
     nl_status, nl_fails = near_limit_probe(ctx_, work, vals)
     res["failures"] += nl_fails
     res["coverage"] = {
         "near_valid_structs": nv_status, "near_limit_methods": nl_status,
+        "data_nine_pairings": {"interfaces": ndata, "implementation_entries": data_lines, "pairings": "C, C++, Rust stubs x C, C++, Rust skeletons"},
         "evaluations": ncalls, "distinct_nontrivial": distinct,
         "rule": "%d generated interfaces of 12 methods (0-8 parameters over primitives, buffers, primitive and struct arrays, small and big object-free "
                 "structs, objects, object arrays); every method outside the known classes is called with 3 valuations (boundary lengths 0/1/3/5, "
                 "capacities 0/1/4/6, NULL and shared handles) plus one error-status run through C stub -> copying transport -> C skeleton, "
                 "gcc -Wall -Wextra -Werror with ASan+UBSan; non-trivial = a method outside the known classes" % nb,
         "samples": [{"idl": gen.render_file(batches[0][1]["files"][0])[:800], "classes": (results.get(0) or {}).get("classes")}],
-        "known_class_methods_and_failing_groups": khist, "pairings": ["C stub -> C skeleton"],
+        "known_class_methods_and_failing_groups": khist, "pairings": ["C stub -> copying transport -> C skeleton (model-checked)", "all nine stub x skeleton pairings, direct (data: here; objects: C05)"],
     }
     res["trusted_extra"] = ["lib/l2c.py: generator of the logging implementation, the callers and the copying transport (C); gcc/clang with ASan/UBSan"]
     return res
